@@ -112,6 +112,11 @@ def sources(tier, seed, ctx):
                 for shift in range(0, smax + 1):
                     if (la + lb + shift + big) % 2 == 0 or tier != 'quick':
                         srcs.append({'fn': 'add_sum_two_numbers_with_shift', 'la': la, 'lb': lb, 'shift': shift, 'big': big, 'host': None})
+    # operands beyond 32 / 64 bits (sampled operand values; the identity is judged on bit sequences)
+    for la, lb in ([(33, 33), (64, 64), (65, 40), (16, 70)] if tier == 'quick' else [(31, 32), (33, 33), (63, 64), (64, 64), (65, 40), (16, 70), (100, 100)]):
+        for big in (False, True):
+            srcs.append({'fn': 'add_sum_two_numbers', 'la': la, 'lb': lb, 'big': big, 'host': None})
+            srcs.append({'fn': 'add_sum_two_numbers_with_shift', 'la': la, 'lb': lb, 'shift': 33 if big else 1, 'big': big, 'host': None})
     # operand lists shared between calls: the same list object as both operands, then reused
     for la in (1, 2, 3):
         for big in (False, True):
